@@ -819,7 +819,7 @@ TAIL_CONTEXTS = {
     "lambda-body": "((lambda (q) q %s) 1)",
     "apply": "(apply (lambda () %s) '())",
 }
-LOOP_SHAPES = ["self", "mutual2", "mutual3", "higher-order", "variadic", "closure-returned",
+LOOP_SHAPES = ["self", "mutual2", "mutual-own-names", "mutual3", "higher-order", "variadic", "closure-returned",
                "operator-call", "operator-if", "operator-car", "internal-define", "internal-helper", "body-effect",
                "closure-chain", "closure-chain-internal", "closure-chain-acc"]
 
@@ -841,6 +841,12 @@ def loop_program(shape, contexts):
     if shape == "mutual2":
         return ["(define (la i n) (if (< i n) %s i))" % wrap("(lb (+ i 1) n)"),
                 "(define (lb i n) (if (< i n) %s i))" % wrap("(la (+ i 1) n)")], "(la 0 %d)"
+    if shape == "mutual-own-names":
+        # the procedures of the loop bind DIFFERENT names (parameters, a rest parameter, an internal definition); each refers
+        # to global variables named like what the other one binds: the frame left by a tail call is gone
+        return ["(define step 1)", "(define extra 0)",
+                "(define (la step i n) (define extra 1) (if (< i n) %s i))" % wrap("(lb (+ i extra) n)"),
+                "(define (lb i n . r) (if (< i n) %s i))" % wrap("(la 0 (+ i 1 extra) (+ n (- step 1)))")], "(la 0 0 %d)"
     if shape == "mutual3":
         return ["(define (la i n) (if (< i n) %s i))" % wrap("(lb (+ i 1) n)"),
                 "(define (lb i n) (if (< i n) %s i))" % wrap("(lc (+ i 1) n)"),
@@ -981,7 +987,12 @@ class MacroGen:
             items.append(self.template(pvars, groups, depth - 1))
         for g in groups:
             if r.random() < 0.7:
-                if len(g) == 1 or r.random() < 0.5:
+                kk = r.random()
+                if kk < 0.2:
+                    # the variables of the repeated sub-template only inside a vector, or a list inside it
+                    vs = " ".join(r.sample(g, len(g)))
+                    items.append(r.choice(["#(%s) ...", "(k #(%s)) ...", "#(q %s) ...", "((%s)) ...", "(#(%s) k) ..."]) % vs)
+                elif len(g) == 1 or kk < 0.6:
                     items.append("%s ..." % r.choice(g))
                 else:
                     items.append("(%s) ..." % " ".join(r.sample(g, len(g)) + (["k"] if r.random() < 0.3 else [])))
@@ -1508,6 +1519,15 @@ def encapsulation_case(rng):
             imported.append(name)
     if bare:
         forms.insert(rng.randint(0, len(forms)), "(import (bare))")
+    if rng.random() < 0.4:
+        # a library that exports NOTHING (no export declaration, or an empty one) and acts when it is loaded: loaded once,
+        # however many import declarations name it
+        decl = rng.choice(["", "(export) "])
+        effect = "(tick 95 0)" + (" (next-%s)" % names[0] if rng.random() < 0.5 else "")
+        imp = "(import (scheme base) (verif tick)%s)" % (" (%s)" % names[0] if "next-" in effect else "")
+        libs.append(("plug", "(define-library (plug) %s%s (begin %s))" % (decl, imp, effect), [], None, []))
+        for _ in range(rng.randint(2, 3)):
+            forms.insert(rng.randint(0, len(forms)), rng.choice(["(import (plug))", "(import (plug) (plug))", "(import (only (plug)))"]))
     # the import phase ends with the first other form
     pool = []
     for name, text, deps, ext_peek, aliases in libs:
@@ -1595,6 +1615,13 @@ def repl_session(rng, nforms=6):
                 # a failing submission in between must not disturb what was established
                 out.insert(pos, rng.choice(["(car '())", "(undefined-thing)", "(if)", ")"]))
                 pos += 1
+    if rng.random() < 0.5:
+        # the same submission two or three times in a row (same text, same line splitting): each one is a submission
+        rep = rng.choice(["(bump-r!)", '(display "tick")', "(car '())", "(begin (bump-r!) (bump-r!))", "(undefined-thing)",
+                          '(begin (display "a") (bump-r!))'])
+        pos = rng.randint(0, len(out))
+        block = ["(define n-r 0) (define (bump-r!) (set! n-r (+ n-r 1)) n-r)"] + [rep] * rng.randint(2, 3) + ["(* 6 7)", "n-r"]
+        out[pos:pos] = block
     return out
 
 
@@ -1698,8 +1725,10 @@ def render_file(rng, forms, eol, final_newline):
         if rng.random() < 0.2:
             parts.append("; a comment ) (")
         if rng.random() < 0.15:
-            parts.append("")
-        parts.append(("  " if rng.random() < 0.2 else "") + f)
+            # an empty line, or one that holds blanks only
+            parts.append(rng.choice(["", "", "   ", "\t", " \t  "]))
+        # indentation before, and blanks after, a form
+        parts.append(("  " if rng.random() < 0.2 else "") + f + (rng.choice([" ", "  ", "   ", "\t", " \t ", "    "]) if rng.random() < 0.25 else ""))
     text = eol.join(parts)
     if final_newline:
         text += eol
@@ -1859,6 +1888,11 @@ def located_fault_program(rng, kind, context, template=None, fault=None):
         f = rng.choice(["(map (lambda (z) %s) '(1 2))", "(for-each (lambda (z) %s) '(1))", "(fold-left (lambda (z acc) %s) 0 '(1))"]) % expr
     else:
         f = (template if template is not None else rng.choice(LOC_DERIVED)) % expr
+    if rng.random() < 0.4:
+        # the same text earlier in the program, where it does not fail (the body of a procedure that is never called, or
+        # called with the name bound): what is reported for the failing form must not depend on it
+        forms.insert(rng.randint(0, len(forms)), rng.choice(["(define (unused-helper) %s)", "(define unused-thunk (lambda () (list %s)))",
+                                                              "(define (unused-2 undefined-variable undefined-procedure) %s)"]) % f)
     idx = len(forms)
     forms.append(f)
     forms.append("(display 'not-reached)")
@@ -1878,8 +1912,12 @@ class Str(str):
     """a Scheme string in the python model of the data (plain str is a symbol)"""
 
 
+class Chr(str):
+    """a Scheme character in the python model of the data"""
+
+
 class PyList:
-    """python model of the data: ints, symbols (str), strings (Str), pairs as ('pair', a, b), nil as ()"""
+    """python model of the data: ints, symbols (str), strings (Str), characters (Chr), pairs as ('pair', a, b), nil as ()"""
     @staticmethod
     def from_items(items, tail=()):
         v = tail
@@ -1897,6 +1935,8 @@ class PyList:
             return str(v)
         if isinstance(v, Str):
             return '"%s"' % v
+        if isinstance(v, Chr):
+            return "#\\" + v
         if isinstance(v, str):
             return v
         items = []
@@ -1917,13 +1957,15 @@ class PyList:
             return "i%d" % v
         if isinstance(v, Str):
             return "(str %s)" % v.encode().hex()
+        if isinstance(v, Chr):
+            return "(char %d)" % ord(v)
         if isinstance(v, str):
             return "(sym %s)" % v.encode().hex()
         return "(pair %s %s)" % (PyList.canon(v[1]), PyList.canon(v[2]))
 
 
 def rand_atom(rng):
-    return rng.choice([0, 1, 2, 3, 7, -1, 42, "a", "b", "c", True, False, Str("a"), Str("two"), Str("")])
+    return rng.choice([0, 1, 2, 3, 7, -1, 42, "a", "b", "c", True, False, Str("a"), Str("two"), Str(""), Chr("a"), Chr("b"), Chr("x")])
 
 
 def rand_list(rng, maxlen=12, depth=2, improper=0.15):
@@ -1974,7 +2016,7 @@ def perturb(rng, v):
     """a copy of v that differs from it in exactly one place (an atom changed, an element dropped or added, the tail
     changed), at a random position of a random nesting level"""
     if not is_pair(v):
-        return rng.choice([x for x in [0, 1, "a", "z", (), True, ("pair", 1, ()), Str("a"), Str("z")] if not py_equal(x, v)])
+        return rng.choice([x for x in [0, 1, "a", "z", (), True, ("pair", 1, ()), Str("a"), Str("z"), Chr("a"), Chr("z")] if not py_equal(x, v)])
     items, tail = py_items(v)
     k = rng.randrange(len(items) + 1)
     if k < len(items) and rng.random() < 0.6:
@@ -2327,3 +2369,61 @@ def user_macro_fault_program(rng):
     forms.append(wrap % use)
     forms.append("(display 'not-reached)")
     return forms, idx, None
+
+
+def early_closure_program(rng):
+    """a body WITHOUT parameters (zero-argument generator, let (), immediately called thunk) whose FIRST internal
+    definition is a procedure that reads and assigns state the same body defines AFTER it (or calls itself): the closure
+    belongs to the frame of that call - empty at the time - so each call has its own state and an outer binding of the
+    same name is never touched"""
+    st = rng.choice(["n", "count", "state"])
+    vec = rng.random() < 0.35
+    outer = rng.random() < 0.6
+    init_outer = "(vector 'global)" if vec else "100"
+    if vec:
+        first = rng.choice(["(define (bump) (vector-set! %s 0 (cons 'x (vector-ref %s 0))) (vector-ref %s 0))" % (st, st, st),
+                            "(define bump (lambda () (vector-set! %s 0 (cons 'x (vector-ref %s 0))) (vector-ref %s 0)))" % (st, st, st)])
+        later = "(define %s (vector '()))" % st
+    else:
+        first = rng.choice(["(define (bump) (set! %s (+ %s 1)) %s)" % (st, st, st),
+                            "(define bump (lambda () (set! %s (+ %s 1)) %s))" % (st, st, st),
+                            "(define (bump . r) (if (null? r) (begin (set! %s (+ %s 1)) (bump 'again)) %s))" % (st, st, st)])
+        later = "(define %s 0)" % st
+    shape = rng.choice(["generator", "generator", "let-unit", "thunk", "lambda-value"])
+    if shape == "generator":
+        make = "(define (make) %s %s bump)" % (first, later)
+    elif shape == "let-unit":
+        make = "(define (make) (let () %s %s bump))" % (first, later)
+    elif shape == "thunk":
+        make = "(define (make) ((lambda () %s %s bump)))" % (first, later)
+    else:
+        make = "(define make (lambda () %s %s (lambda () (bump))))" % (first, later)
+    forms = []
+    if outer:
+        forms.append("(define %s %s)" % (st, init_outer))
+    forms += [make, "(define c1 (make))", "(define c2 (make))", "(c1)", "(c1)", "(c2)", "(c1)"]
+    if outer:
+        forms.append(st)
+    forms.append("(list (c2) (c1))")
+    return forms
+
+
+def repeated_operand_forms(rng):
+    """derived and core forms whose operands are TEXTUALLY IDENTICAL expressions with an effect: each occurrence is
+    evaluated on its own (number of evaluations, order, deciding value)"""
+    e = rng.choice(["(next!)", "(tick 1 (next!))", "(begin (next!))", "(car (list (next!)))"])
+    f = rng.choice(["(begin (next!) #f)", "(not (next!))"])
+    shapes = ["(and %(e)s %(e)s)", "(and %(e)s %(e)s %(e)s)", "(and 1 %(e)s %(e)s)", "(or %(f)s %(f)s)", "(or %(f)s %(f)s %(e)s)",
+              "(if %(e)s %(e)s)", "(if %(e)s %(e)s %(e)s)", "(if %(f)s %(f)s %(f)s)", "(cond (%(e)s %(e)s))", "(cond (%(f)s %(f)s) (%(e)s %(e)s))",
+              "(cond (%(e)s))", "(cond (%(f)s) (%(e)s))", "(when %(e)s %(e)s)", "(unless %(f)s %(f)s)", "(begin %(e)s %(e)s)",
+              "(let ((a %(e)s) (b %(e)s)) (list a b))", "(let* ((a %(e)s) (b %(e)s)) (list a b))", "(list %(e)s %(e)s)",
+              "(case %(e)s ((1 2 3) %(e)s) (else %(e)s))", "(cond (%(e)s => (lambda (r) (list r %(e)s))))",
+              "((lambda (x) (and x x %(e)s %(e)s)) 1)", "(define (p) (and %(e)s %(e)s))"]
+    forms = ["(define n 0)", "(define (next!) (set! n (+ n 1)) n)"]
+    for sh in rng.sample(shapes, rng.randint(2, 5)):
+        forms.append(sh % {"e": e, "f": f})
+        if sh.startswith("(define (p)"):
+            forms.append("(p)")
+            forms.append("(list (p))")
+        forms.append("n")
+    return forms
